@@ -1184,6 +1184,24 @@ func intrinsic(name string) externalFn {
 		return func(fr *frame, args []value) value {
 			return ex.raceReport(int(asInt64(args[0])), int(asInt64(args[1])))
 		}
+	case "svLockOrderReport":
+		// operation class a next to operation class b: a RWMutex that one of them
+		// read-locks recursively while the other takes it for writing. Go's RWMutex
+		// blocks new readers once a writer waits, so the recursive reader and the
+		// writer wait for each other forever.
+		return func(fr *frame, args []value) value {
+			a, b := int(asInt64(args[0])), int(asInt64(args[1]))
+			rec, _ := ex.ghost["rwrec"].(map[int]map[*value]bool)
+			wr, _ := ex.ghost["rwwr"].(map[int]map[*value]bool)
+			for _, pr := range [][2]int{{a, b}, {b, a}} {
+				for m := range rec[pr[0]] {
+					if wr[pr[1]][m] {
+						return "a sync.RWMutex is read-locked recursively by one operation and write-locked by the other"
+					}
+				}
+			}
+			return ""
+		}
 	case "svHeld":
 		return func(fr *frame, args []value) value {
 			ls := ex.locks[ptrArg(args[0])]
@@ -1318,12 +1336,28 @@ func (e *explorer) lockOp(m *value, op string) {
 			e.ghost["lockerr"] = msg
 		}
 	}
+	note := func(key string) {
+		id, ok := e.ghost["logid"].(int)
+		if !ok || id < 0 {
+			return
+		}
+		mm, _ := e.ghost[key].(map[int]map[*value]bool)
+		if mm == nil {
+			mm = map[int]map[*value]bool{}
+			e.ghost[key] = mm
+		}
+		if mm[id] == nil {
+			mm[id] = map[*value]bool{}
+		}
+		mm[id][m] = true
+	}
 	switch op {
 	case "Lock":
 		if ls.writer || ls.readers > 0 {
 			fail("Lock of a mutex the goroutine already holds (self-deadlock)")
 		}
 		ls.writer = true
+		note("rwwr")
 	case "Unlock":
 		if !ls.writer {
 			fail("Unlock of a mutex that is not locked")
@@ -1332,6 +1366,9 @@ func (e *explorer) lockOp(m *value, op string) {
 	case "RLock":
 		if ls.writer {
 			fail("RLock of a mutex the goroutine holds for writing (self-deadlock)")
+		}
+		if ls.readers > 0 {
+			note("rwrec")
 		}
 		ls.readers++
 	case "RUnlock":
